@@ -749,3 +749,13 @@ def c18q(ctx):
     ctx.check(not bad, 'Request.__init__:optional-variables-read-with-default', 'optional CGI variables are read with a default', fn,
               fail='Request.__init__ indexes the environ with a key a server may omit (%s): the KeyError is raised outside the catch-all and the '
                    'request gets no response' % ', '.join(sorted(set(bad))))
+
+
+@rule('C18.r', floor=2)
+def c18r(ctx):
+    """shared rule C16.b, re-evaluated for this property: an image response has the declared content type -- the tile layer hands the
+    *checked* format of the request to the response (a request whose format is not exactly the layer's format is refused before the
+    tile is loaded); a request without format that slips through gets a content type guessed from the first bytes, `image/png` for
+    everything that is not JPEG"""
+    from ..engine import share
+    share(ctx, 'C16', {'C16.b'}, keep=lambda o: 'format-check-first' in o.construct)
